@@ -59,7 +59,11 @@ def check_scripts(env, rep, prop, scripts, oracle, nontrivial=None):
             rep.oracle_fail(case, f"exception escaped into the transport: {e}", key="escaped-exception")
         for e in res["loop_exceptions"]:
             rep.oracle_fail(case, f"exception reached the event loop: {e}", key="loop-exception")
-        v = oracle(res)
+        # the oracles attribute outputs to inputs by tick: two inputs at one tick (a scripted datagram and a rule's
+        # reaction colliding) cannot be told apart, such a run is judged only for escaping exceptions -- except in
+        # the scenarios that put several inputs into one callback / one tick on purpose
+        designed = any(e[0] == "N" or (e[0] == "S" and len(e) > 13) for e in script["events"])
+        v = "" if (res["same_tick_inputs"] and not designed) else oracle(res)
         if v:
             # a corpus script that documents a recorded finding names that finding's key itself
             rep.oracle_fail(case, v, key=script.get("finding_key") or (prop + ":" + v.split(":")[0]))
@@ -718,6 +722,13 @@ def oracle_c18(res):
             return f"foreign-exception: request {r} ended with {st}"
         if st == "pending":
             return f"hangs: request {r} never completed"
+    for r, st in res.get("consumers", {}).items():
+        rr = int(r)
+        if st["end"] == "pending" and rr in subs and subs[rr][1] < ts:
+            return (f"observation-pending: the application's `async for` over the observation of request {r} is "
+                    f"still waiting after shutdown ({st['items']} notification(s) received)")
+        if st["end"].startswith("raised:") and "Error" not in st["end"].split(":")[1].split(","):
+            return f"foreign-exception: iterating the observation of request {r} raised {st['end']}"
     if info.get("handlers_alive"):
         return f"handlers-alive: server handlers {info['handlers_alive']} not cancelled by shutdown"
     if info.get("second_context") not in (None, "ok"):
